@@ -76,10 +76,11 @@ type ModSet struct {
 	Ctr       bool
 	Big       bool
 	Maps      map[string]bool
+	offStable map[*ssa.Alloc]bool // slice cells only ever assigned append/make/nil results
 }
 
 func newModSet() *ModSet {
-	return &ModSet{Cells: map[*ssa.Alloc]bool{}, Fams: map[string]Family{}, AllocFams: map[string]Family{}, Ghosts: map[string]bool{}, Maps: map[string]bool{}}
+	return &ModSet{offStable: map[*ssa.Alloc]bool{}, Cells: map[*ssa.Alloc]bool{}, Fams: map[string]Family{}, AllocFams: map[string]Family{}, Ghosts: map[string]bool{}, Maps: map[string]bool{}}
 }
 
 func (m *ModSet) addFamsOf(root RootKind, t types.Type, off, n int) {
@@ -131,6 +132,9 @@ func (x *Exec) modOfStore(m *ModSet, addr ssa.Value, valT types.Type) {
 				return
 			}
 			el := a.Type().Underlying().(*types.Pointer).Elem()
+			if x.allocInScope(a) {
+				return // initialisation of an object allocated in this region (its families are AllocFams)
+			}
 			x.modOfHeapWrite(m, el, off, valT)
 			return
 		case *ssa.FieldAddr:
@@ -140,6 +144,9 @@ func (x *Exec) modOfStore(m *ModSet, addr ssa.Value, valT types.Type) {
 			// is the base a local cell?
 			if base, ok := a.X.(*ssa.Alloc); ok && !base.Heap {
 				m.Cells[base] = true
+				return
+			}
+			if base, ok := a.X.(*ssa.Alloc); ok && base.Heap && x.allocInScope(base) {
 				return
 			}
 			if _, ok := a.X.(*ssa.FieldAddr); ok {
@@ -180,6 +187,9 @@ func (x *Exec) modOfIndex(m *ModSet, ia *ssa.IndexAddr, off int, valT types.Type
 				m.Cells[base] = true
 				return
 			}
+			if x.allocInScope(base) {
+				return
+			}
 			m.addFamsOf(RElem, arr.Elem(), off, len(leavesOf(valT)))
 		case *ssa.FieldAddr:
 			// array field inside a struct: whole array leaf is rewritten
@@ -204,7 +214,36 @@ func (x *Exec) modOfHeapWrite(m *ModSet, objT types.Type, off int, valT types.Ty
 	}
 }
 
+// allocInScope: is the (heap) Alloc executed inside the code region being analysed?  Writes to
+// such objects are initialisations of fresh objects, not modifications of pre-existing ones.
+func (x *Exec) allocInScope(a *ssa.Alloc) bool {
+	for _, sc := range x.modScopes {
+		if sc[a.Block()] {
+			return true
+		}
+	}
+	return false
+}
+
+func (m *ModSet) addAllocFamsOf(root RootKind, t types.Type, off, n int) {
+	fams := familiesOf(root, t)
+	if n < 0 {
+		n = len(fams) - off
+	}
+	for _, f := range fams[off : off+n] {
+		if _, real := m.Fams[f.Name]; !real {
+			m.AllocFams[f.Name] = f
+		}
+	}
+}
+
 func (x *Exec) modOfBlocks(blocks []*ssa.BasicBlock, depth int) *ModSet {
+	sc := map[*ssa.BasicBlock]bool{}
+	for _, b := range blocks {
+		sc[b] = true
+	}
+	x.modScopes = append(x.modScopes, sc)
+	defer func() { x.modScopes = x.modScopes[:len(x.modScopes)-1] }()
 	m := newModSet()
 	for _, b := range blocks {
 		for _, in := range b.Instrs {
@@ -262,6 +301,38 @@ func (x *Exec) modOfBlocks(blocks []*ssa.BasicBlock, depth int) *ModSet {
 	// a family that is really written is not alloc-only
 	for k := range m.Fams {
 		delete(m.AllocFams, k)
+	}
+	// slice cells whose every assignment in the region keeps offset 0
+	unstable := map[*ssa.Alloc]bool{}
+	for _, b := range blocks {
+		for _, in := range b.Instrs {
+			st, ok := in.(*ssa.Store)
+			if !ok {
+				continue
+			}
+			a, ok := st.Addr.(*ssa.Alloc)
+			if !ok || a.Heap {
+				continue
+			}
+			switch v := st.Val.(type) {
+			case *ssa.MakeSlice:
+			case *ssa.Const:
+				if v.Value != nil {
+					unstable[a] = true
+				}
+			case *ssa.Call:
+				if bi, ok := v.Call.Value.(*ssa.Builtin); !ok || bi.Name() != "append" {
+					unstable[a] = true
+				}
+			default:
+				unstable[a] = true
+			}
+		}
+	}
+	for a := range m.Cells {
+		if !unstable[a] {
+			m.offStable[a] = true
+		}
 	}
 	return m
 }
